@@ -13,17 +13,17 @@ fn lonely_specs() -> Vec<CfgSpec> {
     // suggestions off; the other options must not matter
     vec![
         CfgSpec::new(Lay::Phonetic, 0),
-        CfgSpec::new(Lay::Phonetic, O_ENG | O_SQ),
+        CfgSpec::new(Lay::Phonetic, O_ENG | O_SQ | O_FIXED_ONLY),
         CfgSpec::new(Lay::Phonetic, O_ANSI | O_SQ),
-        CfgSpec::new(Lay::Phonetic, O_ENG | O_ANSI),
+        CfgSpec::new(Lay::Phonetic, O_ENG | O_ANSI | O_REPH | O_KARORDER),
     ]
 }
 fn list_specs() -> Vec<CfgSpec> {
     vec![
         CfgSpec::new(Lay::Phonetic, O_PSUGG),
         CfgSpec::new(Lay::Phonetic, O_PSUGG | O_ENG | O_SQ),
-        CfgSpec::new(Lay::Phonetic, O_PSUGG | O_SQ | O_ANSI),
-        CfgSpec::new(Lay::Phonetic, O_PSUGG | O_ENG),
+        CfgSpec::new(Lay::Phonetic, O_PSUGG | O_SQ | O_ANSI | O_FIXED_ONLY),
+        CfgSpec::new(Lay::Phonetic, O_PSUGG | O_ENG | O_FSUGG | O_VOWEL | O_NUMPAD),
     ]
 }
 
